@@ -140,6 +140,20 @@ func profileByName(name string) Profile {
 		p.Txs = 16
 		p.Segs = []int{150, 200, 300}
 		p.Modes = []int{1}
+	case "mergeduring":
+		// Merge is CALLED while a write transaction holds the lock (it must wait, and then see the segments as they
+		// are when it gets the lock); transactions with long values rotate the segment; sorted sets with positional
+		// removals, sets and key/value data; reopen often (C17)
+		p.WKV, p.WList, p.WSet, p.WZSet = 2, 0, 1, 5
+		p.Buckets = []string{"z", "b"}
+		p.Merge = 10
+		p.MergeDuringTx = 40
+		p.Reopen = 30
+		p.Txs = 14
+		p.OpsMin, p.OpsMax = 2, 5
+		p.Segs = []int{150, 200}
+		p.SmallRanks = true
+		p.Oversize, p.DoneCalls, p.Abort = 0, 0, 5
 	case "mergezpos":
 		// sorted sets with many position-dependent removals (rank ranges, pops) and removals by key, so that
 		// whole segments die; Merge and reopen often (the scenario of fix 71d5512)
@@ -338,6 +352,12 @@ func suiteHist(seed uint64, n int, work, prof string) {
 		return
 	case "fuzz":
 		suiteFuzz(seed, n, work)
+		return
+	case "mergecorrupt":
+		suiteMergeCorrupt(seed, n, work)
+		return
+	case "fuzzsparse":
+		suiteFuzzMode(seed, n, work, true)
 		return
 	}
 	p := profileByName(prof)
